@@ -291,6 +291,9 @@ func (r *walRun) open() string {
 			w, err = wal.Open(r.dir, wal.WithSegmentSize(r.segSize), wal.WithMetricsCollector(r.t), wal.WithLogger(hclog.NewNullLogger()))
 		}
 	} else {
+		if n := r.cfs.adoptPending(); n > 0 {
+			r.c.stats["open_adopts_unsynced_batch"] += n
+		}
 		sf := segment.NewFiler("d", r.cfs)
 		ms := &cmeta{fs: r.cfs}
 		if r.codecID != 1 {
@@ -1070,6 +1073,11 @@ func (r *walRun) run() string {
 	if r.cfs != nil {
 		for k, v := range r.cfs.faultsFired {
 			r.c.stats["fault_fired_on_"+k] += v
+		}
+	}
+	if r.cfs != nil {
+		for k, v := range r.cfs.events {
+			r.c.stats[k] += v
 		}
 	}
 	if r.cfs != nil && r.cfs.dupID != "" {
